@@ -447,6 +447,8 @@ where
     }
 }
 
+include!("arena_x_probes.inc.rs");
+
 fn min_non_zero_cap(size: usize) -> usize { if size == 1 { 8 } else if size <= 1024 { 4 } else { 1 } }
 
 /// C15 at collection level: a real MutBumpVec / MutBumpVecRev is filled (growth = prepare in a
@@ -630,6 +632,55 @@ where
         core::mem::forget(bump);
         let _ = writeln!(st.out, "END");
         return;
+    }
+    if st.rng.coin(1, 2) { with_settings_x(st, bump) } else { finish_run(st, bump) }
+}
+
+/// C18: `Bump::with_settings` by value to another minimum alignment — the position of the current
+/// chunk must be a multiple of the new alignment afterwards (the model step is the entry of an
+/// aligned region that is never left), then a few allocations, then the drop.
+fn with_settings_x<A, S>(st: &mut St, bump: Bump<A, S>)
+where
+    A: bump_scope::BaseAllocator<S::GuaranteedAllocated> + Default,
+    S: BumpAllocatorSettings,
+{
+    flush(st);
+    let n: usize = 1 << st.rng.below(5);
+    macro_rules! body {
+        ($N:literal) => {{
+            let _ = writeln!(st.out, "O AP {} {}", st.h, $N);
+            let b2: Bump<A, <S as BumpAllocatorSettings>::WithMinimumAlignment<$N>> = bump.with_settings();
+            st.epoch += 1;
+            let _ = writeln!(st.out, "R U");
+            stats_line(st, b2.as_scope());
+            if let Some(c) = b2.stats().current_chunk() {
+                if (c.bump_position().as_ptr() as usize) % $N != 0 {
+                    st.x("position-not-multiple-of-min-align", &format!("after Bump::with_settings to MIN_ALIGN {}", $N));
+                }
+            }
+            for _ in 0..3 {
+                if st.dead { break; }
+                let size = st.rng.range(0, 40) as usize;
+                let align = 1usize << st.rng.below(4);
+                guarded_exec(st, b2.as_scope(), false, &Op::Alloc { w: 0, size, align, cls: 0, ty: 0, len: 0 });
+            }
+            if st.dead { core::mem::forget(b2); let _ = writeln!(st.out, "END"); } else { finish_run(st, b2) }
+        }};
+    }
+    match n { 1 => body!(1), 2 => body!(2), 4 => body!(4), 8 => body!(8), _ => body!(16) }
+}
+
+fn finish_run<A, S>(st: &mut St, bump: Bump<A, S>)
+where
+    A: bump_scope::BaseAllocator<S::GuaranteedAllocated> + Default,
+    S: BumpAllocatorSettings,
+{
+    // unmodelled probes (plain Global arenas): reported under this run's header, before its last step
+    for _ in 0..2 {
+        for m in probes::entry_probe(&mut st.rng) {
+            let (kind, detail) = m.split_once(": ").unwrap_or((m.as_str(), ""));
+            st.x(kind, detail);
+        }
     }
     let _ = writeln!(st.out, "O DROP");
     st.blocks.clear();
